@@ -28,7 +28,7 @@ MonStep(m, e) ==
       [] e.ev = "BLinkDown" /\ e.cause = "script" -> IF \E x \in RangeS(m.cuts) : x.c = e.c THEN m     \* (already broken: one outage per connection)
                                                      ELSE [m EXCEPT !.cuts = Append(@, [c |-> e.c, i |-> e.i])]
       \* a write error reported by the transport while its read direction still works is an outage of that connection as well
-      [] e.ev = "Fault" /\ e.do = "failWrite" -> IF \E x \in RangeS(m.cuts) : x.c = e.c THEN m
+      [] e.ev = "Fault" /\ e.do \in {"failWrite", "failWriteIO"} -> IF \E x \in RangeS(m.cuts) : x.c = e.c THEN m
                                                  ELSE [m EXCEPT !.cuts = Append(@, [c |-> e.c, i |-> e.i])]
       [] e.ev = "BRecvReq" /\ e.kind = "ConnectRequest" -> [m EXCEPT !.connects = Append(@, [c |-> e.c, token |-> e.token])]
       [] e.ev = "Disconnected" -> IF m.closeConnI = 0 THEN [m EXCEPT !.disc = @ + 1] ELSE m
